@@ -103,6 +103,12 @@ def build():
                     // only a challenge of the type configured for this identifier is acted on
                     assert(same_type(current_identifier.challenge, *challenge)); //@C05.only_challenges_of_the_configured_type_are_acted_on
                 }"""),
+            ("before_stmt_re", r"let \w+ = http::finalize_order\(", 1, """
+    proof {
+        // the CSR goes to an order the CA reports ready (RFC 8555 section 7.4): an order that is already valid has been finalized with
+        // another CSR, and its certificate is for that other key
+        assert(order.status is Ready); //@C03.only_an_order_that_is_ready_is_finalized,C01.only_an_order_that_is_ready_is_finalized
+    }"""),
             ("before_stmt", "http::get_certificate(", 1, """
     proof {
         // the certificate is fetched only from an order the CA reports valid (an announced URL alone is not an issued certificate)
